@@ -1576,7 +1576,11 @@ Error Assembler::_emit(InstId inst_id, const Operand_& o0, const Operand_& o1, c
         uint32_t shift_type = o2.as<Imm>().predicate();
         uint64_t shift_value = o2.as<Imm>().value_as<uint64_t>();
 
-        if (shift_type > uint32_t(ShiftOp::kROR) || shift_value >= op_size)
+        // MVN is ORN (logical, shifted register), which has ROR; NEG|NEGS are SUB|SUBS (shifted register), where
+        // shift '11' is reserved - bit 24 distinguishes the two instruction classes.
+        uint32_t max_shift_type = (opcode.get() & B(24)) ? uint32_t(ShiftOp::kASR) : uint32_t(ShiftOp::kROR);
+
+        if (shift_type > max_shift_type || shift_value >= op_size)
           goto InvalidImmediate;
 
         opcode.add_imm(shift_type, 22);
